@@ -19,12 +19,14 @@
   ParseErc20Lock / ParseERC20RedeemParams) and the currency it is booked in (0 = ETH, 1 = the
   ERC20 token).  The model is the code that exists (after the repairs 0a509b2: mint credits the
   tracker's ProcessOwner, 9de5f06: runERC20Lock has runLock's existence checks, efdfa81:
-  runERC20Reddem consults all three stores like runRedeem), including what still looks wrong:
+  runERC20Reddem consults all three stores like runRedeem, 11ae9db: malformed payloads are refused
+  instead of panicking, 7ff9062: block-end transitions do not depend on the node's job store),
+  including what still looks wrong:
     * a failing ERC20 tracker is never saved as failed (the crossing vote is dropped);
     * burnERC20Tokens looks the token up by `tx.To()` of the redeem transaction;
     * the supply-cap check happens at submission, not at mint.
   Where Go would panic the model returns `Res.panic` (negative VoteIndex, vote slice shorter than
-  the witness list, a transition name that is not registered, a nil error dereferenced).
+  the witness list, a transition name that is not registered).
 -/
 import OLP.Base.Assoc
 
@@ -167,7 +169,8 @@ inductive Op
       1 not RLP-decodable, 2 wrong call data (ETH) / token not listed (ERC20),
       3 wrong contract address (ETH) / transfer receiver is not the ERC contract (ERC20) -/
   | lock (erc : Bool) (pre : Nat) (locker : Addr) (name : Name) (amount : Nat)
-  /-- ETH_REDEEM / ERC20_REDEEM; `pre`: 0 well formed, 2 token not listed (ERC20), 9 selector missing;
+  /-- ETH_REDEEM / ERC20_REDEEM; `pre`: 0 well formed, 2 token not listed (ERC20), 9 selector missing
+      (both refused);
       `toTok`: the external transaction is addressed to a listed token contract (only read when an
       ERC20 redeem is finalized: burnERC20Tokens looks the token up by `tx.To()`) -/
   | redeem (erc : Bool) (pre : Nat) (toTok : Bool) (owner : Addr) (name : Name) (amount : Nat)
@@ -175,9 +178,10 @@ inductive Op
   | report (name : Name) (locker : Addr) (voter : Addr) (idx : Int) (ok : Bool)
   /-- SEND of a wrapped currency (the only other handler that moves it in the explored histories) -/
   | send (frm to : Addr) (cur : Nat) (amount : Nat)
-  /-- doEthTransitions over the names the iteration of the committed tree yields; `jobErr` lists
-      the trackers whose transition function returns an error on this node (job store) -/
-  | endBlock (names : List Name) (jobErr : List Name)
+  /-- doEthTransitions over the names the iteration of the ongoing store yields: State.IterateRange
+      enumerates the keys of the committed tree (minus pending deletes), so `names` is chain state
+      too; since 7ff9062 there is no node-local input (witness role, job store) any more -/
+  | endBlock (names : List Name)
   deriving Repr
 
 inductive Res
@@ -218,7 +222,7 @@ def lockEth (c : Cfg) (s : St) (pre : Nat) (locker : Addr) (name : Name) (amount
 def lockErc (c : Cfg) (s : St) (pre : Nat) (locker : Addr) (name : Name) (amount : Nat) : Out :=
   if pre = 1 then failOut s "decode"
   else if pre = 2 then failOut s "token"
-  else if pre ≠ 0 then ⟨s, .panic, []⟩          -- `"…" + err.Error()` with a nil err
+  else if pre ≠ 0 then failOut s "receiver"    -- the transfer's receiver is not the ERC contract
   else if ¬ (balGet s.bal c.supply 1 + (amount : Int) ≤ c.tokCap) then failOut s "cap"
   else if has s.ongoing name || has s.passed name then failOut s "exists"
   else
@@ -228,8 +232,7 @@ def lockErc (c : Cfg) (s : St) (pre : Nat) (locker : Addr) (name : Name) (amount
 
 /-- runRedeem -/
 def redeemEth (c : Cfg) (s : St) (pre : Nat) (owner : Addr) (name : Name) (amount : Nat) : Out :=
-  if pre = 9 then ⟨s, .panic, []⟩               -- ParseRedeem: `ss[1]` without the selector
-  else if pre ≠ 0 then failOut s "parse"
+  if pre ≠ 0 then failOut s "parse"             -- ParseRedeem: selector missing / arguments incomplete
   else
     match balSub s.bal owner 0 amount with
     | none => failOut s "insufficient"
@@ -244,8 +247,7 @@ def redeemEth (c : Cfg) (s : St) (pre : Nat) (owner : Addr) (name : Name) (amoun
 
 /-- runERC20Reddem (all three stores are consulted, as in runRedeem) -/
 def redeemErc (c : Cfg) (s : St) (pre : Nat) (toTok : Bool) (owner : Addr) (name : Name) (amount : Nat) : Out :=
-  if pre = 9 then ⟨s, .panic, []⟩
-  else if pre ≠ 0 then failOut s "token"
+  if pre ≠ 0 then failOut s "token"             -- ParseERC20RedeemParams / ParseERC20RedeemToken fail
   else
     match balSub s.bal owner 1 amount with
     | none => failOut s "insufficient"
@@ -321,41 +323,42 @@ inductive TransOut
   deriving DecidableEq, Repr
 
 /-- `Engine.Process(t.NextStep(), ctx, t.State)` followed by the save rule of doEthTransitions
-    (`ctx.Tracker.State < 5 && state != ctx.Tracker.State`).  `jobErr`: the transition function
-    returned an error (job store), doEthTransitions `continue`s and the session is discarded. -/
-def transition (jobErr : Bool) (t : Tracker) : TransOut :=
+    (`ctx.Tracker.State < 5 && state != ctx.Tracker.State`).  Since 7ff9062 a missing job of the
+    node-local job store no longer makes a transition function fail: the result is a function of
+    the tracker record alone (witness role and job store only decide which off-chain jobs are
+    scheduled, which is not chain state). -/
+def transition (t : Tracker) : TransOut :=
   match t.typ.isLock, t.state with
   | _, .broadcastSuccess => .none                                     -- NextStep = NOOP
   | _, .finalized => .panic                                           -- MINTING / BURN are not registered
-  | _, .released => if jobErr then .none else .toPassed
-  | _, .failed => if jobErr then .none else .toFailed
-  | _, .new => if jobErr then .none else .save { t with state := .busyBroadcasting }   -- Broadcasting / Signing
+  | _, .released => .toPassed
+  | _, .failed => .toFailed
+  | _, .new => .save { t with state := .busyBroadcasting }            -- Broadcasting / Signing
   | true, .busyBroadcasting =>                                        -- Finalizing
-    if jobErr then .none
-    else if t.yes + t.no > 0 then .save { t with state := .busyFinalizing } else .none
-  | true, .busyFinalizing =>                                          -- Finalization (returns before the job part)
+    if t.yes + t.no > 0 then .save { t with state := .busyFinalizing } else .none
+  | true, .busyFinalizing =>                                          -- Finalization
     if t.finalized then .save { t with state := .finalized } else .none
   | false, .busyBroadcasting => .none                                 -- VerifyRedeem
   | false, .busyFinalizing => .none                                   -- RedeemConfirmed
 
 /-- one iteration of the loop in doEthTransitions; `none` = panic -/
-def endOne (s : St) (jobErr : List Name) (name : Name) : Option St :=
+def endOne (s : St) (name : Name) : Option St :=
   match alookup name s.ongoing with
   | none => none                       -- `t, _ := Get(name)`; `t.State` on a nil tracker
   | some t =>
-    match transition (jobErr.contains name) t with
+    match transition t with
     | .none => some s
     | .panic => none
     | .save t' => some (setOngoing s t')
     | .toPassed => some { s with passed := upsert s.passed name t.clean, ongoing := aerase s.ongoing name }
     | .toFailed => some { s with failed := upsert s.failed name t.clean, ongoing := aerase s.ongoing name }
 
-def endBlock (s : St) (jobErr : List Name) : List Name → Option St
+def endNames (s : St) : List Name → Option St
   | [] => some s
   | n :: ns =>
-    match endOne s jobErr n with
+    match endOne s n with
     | none => none
-    | some s' => endBlock s' jobErr ns
+    | some s' => endNames s' ns
 
 def step (c : Cfg) (s : St) : Op → Out
   | .lock false pre l n a => lockEth c s pre l n a
@@ -364,8 +367,8 @@ def step (c : Cfg) (s : St) : Op → Out
   | .redeem true pre tt o n a => redeemErc c s pre tt o n a
   | .report n l v i ok => report c s n l v i ok
   | .send f t cur a => send s f t cur a
-  | .endBlock ns je =>
-    match endBlock s je ns with
+  | .endBlock ns =>
+    match endNames s ns with
     | none => ⟨s, .panic, []⟩
     | some s' => ⟨s', .ok "end", []⟩
 
